@@ -500,6 +500,44 @@ func c14PeerRewrite(c *Ctx, fn *ssa.Function, g *ssa.Go, arg ssa.Value, peer *ss
 	}
 	var cands []cand
 	var joinBlock *ssa.BasicBlock
+	// the choice may live in an unexported helper called with the sender (peerOrBroadcast(upeer)): judged inside the
+	// helper, with its parameter as the sender and its returns as the two candidates
+	inHelper := false
+	var keepBlk *ssa.BasicBlock
+	isSender := func(v ssa.Value) bool {
+		x, ok := v.(*ssa.Extract)
+		if !ok {
+			return false
+		}
+		ta, ok := x.Tuple.(*ssa.TypeAssert)
+		return ok && x.Index == 0 && peer != nil && ta.X == ssa.Value(peer) && namedIs(ta.AssertedType, "net", "UDPAddr")
+	}
+	if cl, ok := arg.(*ssa.Call); ok {
+		h := cl.Call.StaticCallee()
+		if h != nil && inModule(h) && h.Blocks != nil && !token.IsExported(h.Name()) && len(h.Params) == 1 && len(cl.Call.Args) == 1 && isSender(cl.Call.Args[0]) && h.Signature.Results().Len() == 1 {
+			r.Check(sameCycle(cl.Block(), g.Block()), "C14-K5", key("the peer is chosen per datagram"), c.P.ipos(cl), "helper call on the loop's cycle", "the peer handed to the handlers is computed outside the serve loop")
+			inHelper = true
+			fn = h
+			prm := ssa.Value(h.Params[0])
+			isSender = func(v ssa.Value) bool { return v == prm }
+			for _, rt := range returnsOf(h) {
+				v := rt.Results[0]
+				if ph, isPhi := v.(*ssa.Phi); isPhi && ph.Block() == rt.Block() {
+					for i, e := range ph.Edges {
+						cands = append(cands, cand{e, ph.Block().Preds[i]})
+					}
+					continue
+				}
+				cands = append(cands, cand{v, rt.Block()})
+			}
+			for _, cd := range cands {
+				if isSender(cd.v) {
+					keepBlk = cd.blk
+				}
+			}
+			arg = nil
+		}
+	}
 	switch x := arg.(type) {
 	case *ssa.Phi:
 		joinBlock = x.Block()
@@ -535,9 +573,9 @@ func c14PeerRewrite(c *Ctx, fn *ssa.Function, g *ssa.Go, arg ssa.Value, peer *ss
 	var keepPreds []*ssa.BasicBlock
 	for _, cd := range cands {
 		switch x := cd.v.(type) {
-		case *ssa.Extract:
-			if ta, ok := x.Tuple.(*ssa.TypeAssert); ok && x.Index == 0 && peer != nil && ta.X == ssa.Value(peer) && namedIs(ta.AssertedType, "net", "UDPAddr") {
-				upeer = x
+		case *ssa.Extract, *ssa.Parameter:
+			if isSender(cd.v) {
+				upeer = cd.v
 				keepPreds = append(keepPreds, cd.blk)
 				continue
 			}
@@ -559,7 +597,7 @@ func c14PeerRewrite(c *Ctx, fn *ssa.Function, g *ssa.Go, arg ssa.Value, peer *ss
 	}
 	// fresh per datagram: the address object is allocated inside the serve loop (one allocated before the loop is shared
 	// by every handler still running: a later datagram's port overwrites the peer an earlier handler is replying to)
-	r.Check(sameCycle(alloc.Block(), g.Block()), "C14-K5", key("rewritten peer is allocated per datagram"), c.P.ipos(alloc), "allocation on the loop's cycle", "the rewritten peer address is allocated outside the serve loop and shared between datagrams: handlers of different senders see each other's port")
+	r.Check(inHelper || sameCycle(alloc.Block(), g.Block()), "C14-K5", key("rewritten peer is allocated per datagram"), c.P.ipos(alloc), "allocation on the loop's cycle", "the rewritten peer address is allocated outside the serve loop and shared between datagrams: handlers of different senders see each other's port")
 	// stores into the fresh UDPAddr
 	gotIP, gotPort := "", ""
 	for _, ref := range *alloc.Referrers() {
@@ -624,8 +662,12 @@ func c14PeerRewrite(c *Ctx, fn *ssa.Function, g *ssa.Go, arg ssa.Value, peer *ss
 	// avoids the rewrite passes the false edge of each test
 	blocked := map[*ssa.BasicBlock]bool{rewriteBlk: true}
 	okKeep := true
+	keepTarget := g.Block()
+	if inHelper {
+		keepTarget = keepBlk
+	}
 	for _, e := range []Edge{fNil, fZero} {
-		if reachFrom(fn.Blocks[0], map[Edge]bool{e: true}, blocked)[g.Block()] {
+		if keepTarget == nil || reachFrom(fn.Blocks[0], map[Edge]bool{e: true}, blocked)[keepTarget] {
 			okKeep = false
 		}
 	}
